@@ -173,3 +173,42 @@ func VerifC09Loader() {
 	rt.Reach("loaded")
 }
 
+
+// VerifC09EmptyRequest: a request that names no heads and no snapshot path is answered with the whole tree from
+// its original root on - also when the responder has made snapshots since (its own path then starts at the
+// latest one) - in causal order, each change once, within the size limit.
+func VerifC09EmptyRequest() {
+	n := rt.Param("n", 3)
+	ids := rt.Atoms(n+1, 2)
+	b := newVBuilder()
+	b.nextIds = ids[1:]
+	ctx := context.Background()
+	resp, err := vNewReplica(ids[0], b, "w")
+	rt.Assert(err == nil, "open")
+	for j := 1; j <= n; j++ {
+		_, err := resp.ot.AddContent(ctx, SignableChangeContent{Data: []byte("d"), Key: &vTreeKey{id: "w"}, IsSnapshot: rt.Bool(), Timestamp: 1, DataType: "t"})
+		rt.Assert(err == nil, "local-add")
+	}
+	maxSize := []int{1, 2, 1 << 20}[rt.Choose(3)]
+	loader, err := resp.ot.ChangesAfterCommonSnapshotLoader(nil, nil)
+	rt.Assert(err == nil, "loader-created")
+	if err != nil {
+		return
+	}
+	var sent []string
+	for round := 0; round < n+3; round++ {
+		batch, err := loader.NextBatch(maxSize)
+		rt.Assert(err == nil, "next-batch")
+		if len(batch.Batch) == 0 {
+			break
+		}
+		for _, r := range batch.Batch {
+			sent = append(sent, r.Id)
+		}
+	}
+	rt.Assert(len(sent) == n+1, "whole-tree-is-sent")
+	for j := 0; j <= n && j < len(sent); j++ {
+		rt.Assert(sent[j] == ids[j], "from-the-original-root-in-causal-order")
+	}
+	rt.Reach("empty-request")
+}
